@@ -277,6 +277,10 @@ impl Rasn {
                     let range = format!("..={max}");
                     quote!(#range_prefix(#range))
                 }
+                // `SIZE (MIN..MAX, ...)` is `SIZE (0..MAX, ...)`: the extension marker needs an annotation
+                (None, None, true) if per_constraints.is_size_constraint() => {
+                    quote!(#range_prefix("0..", extensible))
+                }
                 _ => TokenStream::new(),
             },
         )
